@@ -18,6 +18,7 @@ type PathResult struct {
 	Obls  []Obl
 	End   string // return | panic | backedge | stop
 	Notes []string
+	Trace string
 }
 
 // Exec verifies one function.
@@ -45,6 +46,9 @@ type Exec struct {
 	covers map[string][]coverInst
 	leaf map[string]Comp
 	pendingClosure *Closure
+	quantDepth int
+	curInstr ssa.Instruction
+	ordTab map[*ssa.Function]map[ssa.Instruction]int
 }
 
 type loopInfo struct {
@@ -117,9 +121,57 @@ func (x *Exec) uf(name string, args []Sort, res Sort, ts ...Term) Term {
 	return app(res, f, ts...)
 }
 
+// site names an obligation site: kind, plus the static ordinal of the current instruction among
+// instructions of the same class in its function (stable across paths and unrelated edits), plus
+// the function name when the instruction belongs to an inlined callee.
 func (x *Exec) site(kind string) string {
-	x.siteCount[kind]++
-	return fmt.Sprintf("%s#%d", kind, x.siteCount[kind])
+	in := x.curInstr
+	if in == nil {
+		x.siteCount[kind]++
+		return fmt.Sprintf("%s#%d", kind, x.siteCount[kind])
+	}
+	ord := x.staticOrd(in)
+	if in.Parent() != x.fn {
+		return fmt.Sprintf("%s#%d@%s", kind, ord, shortFuncName(funcKey(in.Parent())))
+	}
+	return fmt.Sprintf("%s#%d", kind, ord)
+}
+
+func instrClass(in ssa.Instruction) string {
+	switch n := in.(type) {
+	case *ssa.FieldAddr:
+		return fmt.Sprintf("FieldAddr:%s.%d", typeName(n.X.Type()), n.Field)
+	case *ssa.Call:
+		c := n.Common()
+		if c.IsInvoke() {
+			return "invoke:" + c.Method.Name()
+		}
+		if f := c.StaticCallee(); f != nil {
+			return "call:" + funcKey(f)
+		}
+		return "call:dyn"
+	case *ssa.Defer:
+		return "defer"
+	}
+	return fmt.Sprintf("%T", in)
+}
+
+func (x *Exec) staticOrd(in ssa.Instruction) int {
+	fn := in.Parent()
+	tab, ok := x.ordTab[fn]
+	if !ok {
+		tab = map[ssa.Instruction]int{}
+		counts := map[string]int{}
+		for _, b := range fn.Blocks {
+			for _, i := range b.Instrs {
+				c := instrClass(i)
+				counts[c]++
+				tab[i] = counts[c]
+			}
+		}
+		x.ordTab[fn] = tab
+	}
+	return tab[in]
 }
 
 func funcKey(fn *ssa.Function) string {
@@ -258,7 +310,7 @@ func (x *Exec) finish(st *State, end string) {
 	if st.dryWrites != nil {
 		return
 	}
-	x.results = append(x.results, &PathResult{PC: st.pc, Obls: st.obls, End: end, Notes: st.notes})
+	x.results = append(x.results, &PathResult{PC: st.pc, Obls: st.obls, End: end, Notes: st.notes, Trace: strings.Join(st.trace, " ")})
 }
 
 func (x *Exec) runAll() {
@@ -317,9 +369,15 @@ func (x *Exec) jump(st *State, to *ssa.BasicBlock) {
 	fr.prev = from
 	fr.block = to
 	fr.pc = 0
+	if len(st.frames) == 1 {
+		st.trace = append(st.trace, fmt.Sprintf("%d", to.Index))
+	} else if len(st.frames) == 2 {
+		st.trace = append(st.trace, fmt.Sprintf("%s:%d", shortFuncName(funcKey(fr.fn)), to.Index))
+	}
 }
 
 func (x *Exec) step(st *State, instr ssa.Instruction) {
+	x.curInstr = instr
 	switch in := instr.(type) {
 	case *ssa.DebugRef:
 		if len(st.frames) == 1 {
